@@ -525,3 +525,28 @@ def tmean(h):
     srt = _sorted_expr(sorted(env))
     num = ' + '.join('(%d/%d) * (%s)' % (v.numerator, v.denominator, e) for v, e in zip(w, srt) if v)
     h.check('textbook-trimmed-mean', 'r * (%d/%d) == %s' % (tot.numerator, tot.denominator, num), r=r, **env)
+
+
+@contract('C18/tvariance', ['C18'], F + '::tvariance', samples=200)
+def tvariance(h):
+    """trimmed / winsorized variance of four unweighted points (dyadic trimming weights: exact in binary floating point): the trimming-weighted mean of the squared deviations from the
+    trimmed mean (tstd is its root)"""
+    n = 4
+    k, clip = h.choice('trim', TRIMS)
+    x = h.vec('x', n)
+    w = _trim_weights(n, k, clip)
+    tot = sum(w)
+    if tot == 0:
+        return
+    # the points are given in ascending order here (tmean's contract covers the sorting for every order; with the order
+    # statistics written as min / max terms the quadratic identity is beyond the solvers' budget)
+    h.assume('x[0] <= x[1] and x[1] <= x[2] and x[2] <= x[3]', x=x)
+    r = h.call(h.get(F + '::tvariance'), x, None, k, clip)
+    env = {'x%d' % i: h.ev('x[%d]' % i, x=x) for i in range(n)}
+    srt = sorted(env)
+    frac = lambda v: '(%d/%d)' % (v.numerator, v.denominator)       # noqa: E731
+    tm = '((%s) / %s)' % (' + '.join('%s * (%s)' % (frac(v), e) for v, e in zip(w, srt) if v), frac(tot))
+    num = ' + '.join('%s * ((%s) - %s) * ((%s) - %s)' % (frac(v), e, tm, e, tm) for v, e in zip(w, srt) if v)
+    h.check('textbook-trimmed-variance', 'r * %s == %s' % (frac(tot), num), r=r, **env)
+    sd = h.call(h.get(F + '::tstd'), x, None, k, clip)
+    h.check('tstd-is-the-root-of-tvariance', 'sd >= 0 and sd * sd == r', sd=sd, r=r)
